@@ -20,7 +20,10 @@ TRUSTED = [
     "Model/VmArith.v is a hand model of runtime/src/vm/{arithmetic,comparison.rs,dispatch/ops/{arithmetic,comparison,bitwise,control_flow}.inc}; "
     "tied by hx_vmop (real VM, one assembled instruction per case, dev + release profiles)",
     "Model/OpcodeSelect.v is a hand model of backend/src/opcode_select.rs; tied by hx_c06 --select on all operator x type x type combinations",
-    "sema (which static types reach select_opcode) is NOT modelled: the whole-pipeline half of the property is explored by generated programs, not proved",
+    "sema (which static types reach select_opcode) is NOT modelled; since fix 7e82908 the theorems no longer need it for the modelled opcodes "
+    "(selected_opcode_sound_all_words holds for dishonest static types too); typed positions outside the model (typed array ops, calls) are explored by generated programs only",
+    "Extracted/OpcodeSelectTables.v (BinaryOp, ResolvedType predicates, the five operator->opcode tables) and Extracted/DispatchArms.v "
+    "(which opcodes share a match arm, which Value accessors each arm calls) are regenerated from the Rust source by tools/extractors/c06.py",
     "EqFF/NeFF agreement is proved only modulo codec_eq_fact (primitive-float == of decoded operands = f64_eq on bit patterns); checked on a grid + by hx_vmop",
     "pipeline oracle: the reference ('generic semantics') run is the same computation with every operation moved into untyped helper functions "
     "whose operands are laundered (static type Dynamic => generic opcodes); it is accepted as reference only when its own run has 0 "
@@ -28,7 +31,7 @@ TRUSTED = [
     "hook H4 (bytecode/src/verif.rs): counter of unchecked accessors applied to wrong-kind values",
 ]
 
-IMPORTS = "From Aelys Require Import Extracted.Opcodes Model.Value Model.VmArith Model.VmArithObs Model.OpcodeSelect."
+IMPORTS = "From Aelys Require Import Extracted.Opcodes Extracted.OpcodeSelectTables Model.Value Model.VmArith Model.VmArithObs Model.OpcodeSelect."
 
 
 # ----------------------------------------------------------------------------------------------
@@ -81,10 +84,16 @@ def kind_of_word(w):
 
 def vmop_cross_check(cases):
     """Model-free oracle on the VM's own answers (the search for a failing input when the proof or
-    the tie breaks): a typed opcode applied to correctly tagged operands must give exactly what the
-    generic opcode gives on the same operands (looked up in the same output)."""
+    the tie breaks).  Since fix 7e82908 every specialised opcode must give exactly what the generic
+    opcode of the same operator gives on the same operands (looked up in the same output), for ALL
+    operand kinds; the exceptions are == / != on two floats (IEEE vs Value ==) and on int words
+    with the sign bit set (never produced by Value::int).  Immediate forms are compared with the
+    generic opcode on (a, Value::int(c)), WhileLoopLt with Lt, ForLoopI with its type-error rule."""
     GEN = {"Add": "Add", "Sub": "Sub", "Mul": "Mul", "Div": "Div", "Mod": "Mod", "Lt": "Lt", "Le": "Le", "Gt": "Gt",
            "Ge": "Ge", "Eq": "Eq", "Ne": "Ne", "Shl": "Shl", "Shr": "Shr", "And": "BitAnd", "Or": "BitOr", "Xor": "BitXor"}
+    IMM = {"AddI": "Add", "SubI": "Sub", "LtImm": "Lt", "LeImm": "Le", "GtImm": "Gt", "GeImm": "Ge", "LtIImm": "Lt", "LeIImm": "Le",
+           "GtIImm": "Gt", "GeIImm": "Ge", "ShlIImm": "Shl", "ShrIImm": "Shr", "AndIImm": "BitAnd", "OrIImm": "BitOr", "XorIImm": "BitXor"}
+    QNAN_INT = 0x7FF9 << 48
     gen = {}
     for _, _, line in cases:
         q, o = line.split("\t")
@@ -95,52 +104,39 @@ def vmop_cross_check(cases):
     for _, _, line in cases:
         q, o = line.split("\t")
         t = q.split()
-        if t[0] != "QBin":
+        if o == "P":
+            bad.append((line, "no opcode may panic"))
             continue
-        m = re.fullmatch(r"(Add|Sub|Mul|Div|Mod|Lt|Le|Gt|Ge|Eq|Ne|Shl|Shr|And|Or|Xor)(II|FF)", t[1][2:])
-        if not m:
+        if t[0] == "QBin":
+            m = re.fullmatch(r"(Add|Sub|Mul|Div|Mod|Lt|Le|Gt|Ge|Eq|Ne|Shl|Shr|And|Or|Xor)(II|FF|IIG|FFG)", t[1][2:])
+            if not m:
+                continue
+            a, b = int(t[2]), int(t[3])
+            ka, kb = kind_of_word(a), kind_of_word(b)
+            if m.group(1) in ("Eq", "Ne"):
+                if (ka == "int" and a >> 63) or (kb == "int" and b >> 63):
+                    continue
+                if m.group(2) == "FF" and ka == "float" and kb == "float" and a == b:
+                    continue
+                if m.group(2) in ("IIG", "FFG") and (ka == "float" or kb == "float"):
+                    continue
+            g = gen.get((GEN[m.group(1)], t[2], t[3]))
+        elif t[0] == "QImm":
+            ci = QNAN_INT | int(t[3])
+            g = gen.get((IMM[t[1][2:]], t[2], str(ci)))
+        elif t[0] == "QWhile":
+            g = gen.get(("Lt", t[1], t[2]))
+            if g is not None and g.startswith("W "):
+                g = "T 1" if int(g.split()[1]) & 1 else "T 0"
+        elif t[0] == "QFor":
+            ints = all(kind_of_word(int(x)) == "int" for x in t[2:5])
+            n += 1
+            if ints != o.startswith("L "):
+                bad.append((line, "ForLoopI must raise a type error exactly when a register is not an int"))
             continue
-        a, b = int(t[2]), int(t[3])
-        want = "int" if m.group(2) == "II" else "float"
-        if kind_of_word(a) != want or kind_of_word(b) != want:
-            continue
-        if want == "int" and (a >> 63 or b >> 63):
-            continue        # int tag with the sign bit set: never produced by Value::int
-        g = gen.get((GEN[m.group(1)], t[2], t[3]))
-        if g is None:
-            continue
-        n += 1
-        if m.group(1) in ("Eq", "Ne") and want == "float" and a == b:
-            continue        # NaN == NaN raw-bits shortcut of generic Eq (typed_agrees_when_tagged_eq_ff_refuted)
-        if o != g:
-            bad.append((line, g))
-    # guarded opcodes: ...IIG arithmetic and orderings equal the generic op on every pair; ...FFG ones unless both
-    # are ints; guarded Eq/Ne when no operand is a float
-    for _, _, line in cases:
-        q, o = line.split("\t")
-        t = q.split()
-        if t[0] != "QBin":
-            continue
-        m = re.fullmatch(r"(Add|Sub|Mul|Div|Mod|Lt|Le|Gt|Ge|Eq|Ne)(IIG|FFG)", t[1][2:])
-        if not m:
-            continue
-        a, b = int(t[2]), int(t[3])
-        ka, kb = kind_of_word(a), kind_of_word(b)
-        if (ka == "int" and a >> 63) or (kb == "int" and b >> 63):
-            continue
-        g = gen.get((m.group(1), t[2], t[3]))
-        if g is None:
-            continue
-        opn, fam = m.group(1), m.group(2)
-        both_int = ka == "int" and kb == "int"
-        num = ka in ("int", "float") and kb in ("int", "float")
-        if opn in ("Add", "Sub", "Mul", "Div", "Mod"):
-            applies = fam == "IIG" or not both_int
-        elif opn in ("Lt", "Le", "Gt", "Ge"):
-            applies = fam == "IIG" or not both_int
         else:
-            applies = ka != "float" and kb != "float" and (fam == "IIG" or not both_int)
-        if not applies:
+            continue
+        if g is None:
             continue
         n += 1
         if o != g:
@@ -168,12 +164,8 @@ def tie_vmop(ctx, profiles, pairs, lite=False):
         ctx.cov["vmop_typed_vs_generic_checked"] = ctx.cov.get("vmop_typed_vs_generic_checked", 0) + n
         for line, g in bad[:3]:
             ctx.violation("typed-op-differs-from-generic:" + line.split()[1],
-                          "typed/guarded opcode differs from the generic opcode on operands where the theorems say they agree",
+                          "specialised opcode differs from the generic opcode of the same operator (or panics)",
                           {"case": line, "generic": g, "profile": prof})
-        if not debug:
-            pl = [l for _, o, l in cases if o == "OP"]
-            if pl:
-                ctx.violation("vmop-panic-release", "an opcode panicked in the release profile", {"cases": pl[:5]})
         hv = "[" + "; ".join(f"({p}%N, {'None' if s == '-' else 'Some %s%%N' % s})" for p, s in heap) + "]"
         dbg = "true" if debug else "false"
         fails, err = vlib.coq_eval_cases("c06v", IMPORTS, f"vmop_obs {dbg} HV", "vobs_eqb",
@@ -617,12 +609,11 @@ def run(ctx):
         "which static types sema hands to the backend is explored by generated programs only",
         "codec_eq_fact (premise of typed_agrees_when_tagged_eq_ff_partial)",
     ]
-    ctx.cov["refuted_lemmas"] = [
-        "unchecked_mismatch_refuted", "unchecked_mismatch_ff_refuted", "loop_ops_need_ints_refuted", "guarded_total_sound_refuted",
-        "typed_agrees_when_tagged_eq_ii_refuted", "typed_agrees_when_tagged_eq_ff_refuted"]
+    ctx.cov["refuted_lemmas"] = ["eq_on_nan_differs (== on the canonical NaN: IEEE false vs Value == true; both operands are floats)"]
     ctx.cov["repaired"] = ["KF-C06-4 1cf0449 (sema: int OP float typed float)", "KF-C06-7 5bb247f (guarded orderings raise TypeError)",
-                           "KF-C06-8 da40ed1 (guarded int selection returns generic bitwise opcodes)"]
-    proved = ctx.prove("C06", extracted=["ValueConsts", "Opcodes"])
+                           "KF-C06-8 da40ed1 (guarded int selection returns generic bitwise opcodes)",
+                           "KF-C06-1,2,3,5,6 7e82908 (every type-specialised opcode checks its operand tags and falls back to the generic operation)"]
+    proved = ctx.prove("C06", extracted=["ValueConsts", "Opcodes", "OpcodeSelectTables", "DispatchArms"])
     if ctx.tier == "thorough" and proved:
         ctx.coqchk("C06")
     ok, out = vlib.coq_make(["Base/CaseCheck.vo", "Model/VmArithObs.vo", "Model/OpcodeSelect.vo"])
